@@ -20,7 +20,7 @@ def gen_cases(ctx, langs, n):
     rng = ctx.rng
     cases = []
     for _ in range(n):
-        sy = rng.choice(langs)
+        sy = weighted_lang(rng, langs)
         L, truth, tags = Gen(rng, sy).program()
         cases.append({"sy": sy, "L": L, "truth": truth, "tags": sorted(tags), "tag": "generated"})
     return cases
